@@ -50,4 +50,23 @@ PROPS = {
         "faults": ["connection-scoped protocol offences (27 kinds)", "trailing traffic bursts", "stall (peer stops reading)", "close-peer", "frag", "delay/reorder-dirs", "clock advance (idle timer, ping timer, drain timeout)", "handler gate order"],
         "probes_expected": ["fault-stall-s2c", "fault-close-peer"],
     },
+    "C13": {
+        "level": "exploration",
+        "level_text": "Seeded exploration of adversarial frame schedules of length 40/150/400 (rapid HEADERS+RST_STREAM, half-open streams, PRIORITY on ever-new idle ids, CONTINUATION flood, over-sent and over-declared bodies, PING and SETTINGS floods against a peer that does not read, mixtures) with every handler held. Online: running handlers <= MaxConcurrentStreams, no handler is given a body above MaxRequestBodySize or a header list above MaxHeaderListSize. At the quiescence that ends the flood: live Stream / RequestCtx / FrameHeader objects (from the per-run sim pools) and the bytes they retain are under bounds computed from the limits and the three queue capacities only.",
+        "level_note": "Bounds: Stream, RequestCtx <= 2*MaxConcurrentStreams+8; FrameHeader <= 3*128+16; retained bytes <= 2*MCS*(MaxRequestBodySize+MaxHeaderListSize+64Ki)+400*17000. The closed-stream ring is a local variable and is only observed through what it keeps alive. Known finding: PRIORITY on idle ids.",
+        "design_ref": "DESIGN.md §3 C13",
+        "rule": "a run = one flood kind x length x limits under one seeded schedule, handlers held. Non-trivial: the handler gauge reached MaxConcurrentStreams, or the server refused/reset a stream or sent GOAWAY, or more than 128 frames were sent. Distinct: interleaving hash.",
+        "faults": ["adversarial frame floods (9 kinds)", "held handlers", "stall (peer stops reading)", "backpressure"],
+        "probes_expected": ["fault-stall-s2c"],
+        "budget": {"quick": 35, "thorough": 600},
+    },
+    "C14": {
+        "level": "exploration",
+        "level_text": "Seeded exploration with the peer as a sender model that blocks exactly when its ledger says the window is exhausted: uploads on 2-5 streams totalling 1.2-2.5 times the server's connection receive window, in full, random or padded DATA frames; and (client role) downloads against the client's 1 MiB windows incl. padded frames with empty data and requests the caller cancels. Oracle: no WINDOW_UPDATE with increment 0, no send window above 2^31-1, and at drain quiescence no stream is starved (everything was sent and answered).",
+        "level_note": "Server role: uploads that end in a stream error after DATA was sent cannot be driven to starvation on this tree because the frames still in flight after the server's RST_STREAM tear the connection down first (C09 known finding 'inflight'); that half of the quantifier is therefore not covered. Client role: see families c14-client.",
+        "design_ref": "DESIGN.md §3 C14",
+        "rule": "a run = seeded upload/download plan under one seeded schedule. Non-trivial: the bytes sent exceeded the receiver's connection window, so that progress depended on credit being returned. Distinct: interleaving hash.",
+        "faults": ["frag", "delay/reorder-dirs", "backpressure", "handler gate order", "padding counted against the window", "caller cancel (client role)"],
+        "probes_expected": ["data-padded"],
+    },
 }
